@@ -4,6 +4,8 @@ import (
 	"fmt"
 	"go/types"
 	"sort"
+
+	"verif/engine/smt"
 )
 
 type cell struct {
@@ -43,8 +45,9 @@ type Obj struct {
 }
 
 type watch struct {
-	lock Ptr // *sync.Spinlock state word
-	tag  string
+	lock   Ptr // *sync.Spinlock state word
+	tag    string
+	ranges [][2]int64 // watched byte ranges [lo,hi) of the object
 }
 
 const objSpacing = 1 << 24
@@ -359,9 +362,7 @@ func (ex *Exec) defaultByte(o *Obj, off *Term) *Term {
 		return ex.c.Const(8, 0)
 	}
 	sel := ex.c.Select(o.arr, off)
-	if off.IsConst() {
-		ex.noteSelect(sel)
-	}
+	ex.noteSelect(sel)
 	return sel
 }
 
@@ -422,6 +423,24 @@ func (ex *Exec) byteSym(o *Obj, off *Term) *Term {
 	}
 	if len(cands) > ex.maxCands {
 		ex.maxCands = len(cands)
+	}
+	if len(o.log) == 0 && len(cands) > 0 {
+		// when the candidate cells cover every offset the access can have, the default is unreachable
+		hi := umax
+		if lim := ex.limitOf(o); lim.IsConst() && lim.Val > 0 && lim.Val-1 < hi {
+			hi = lim.Val - 1
+		}
+		if hi < 1<<16 {
+			cnt := 0
+			for k := uint64(0); k <= hi; k++ {
+				if ex.c.MayEq(off, k) {
+					cnt++
+				}
+			}
+			if cnt == len(cands) {
+				r = cands[len(cands)-1].val
+			}
+		}
 	}
 	apply := func(lo, hi int) { // cands[lo:hi] share a stamp class boundary; group by value runs
 		i := lo
@@ -720,9 +739,51 @@ func (ex *Exec) dimTuples(p Ptr, f func(cond *Term, off int64, last bool) bool) 
 	}
 }
 
+// concretizeOff forks over the feasible values of a symbolic offset (solver-guided
+// pointer resolution) when the harness asked for it; after N values the offset stays symbolic.
+func (ex *Exec) concretizeOff(p Ptr) Ptr {
+	if ex.cfg.ConcretizeN <= 0 || p.off.IsConst() || p.dims != nil || ex.guard != nil || p.obj == nil {
+		return p
+	}
+	for i := 0; i < ex.cfg.ConcretizeN; i++ {
+		var v uint64
+		if rec, ok := ex.auxChoice(); ok {
+			if rec.GaveUp {
+				return p
+			}
+			v = rec.V
+		} else {
+			ex.flushAsserts()
+			if ex.model == nil {
+				r, m := ex.sol.Check(nil, true, ex.syms, ex.selects)
+				if r == "sat" {
+					ex.model = m
+				}
+			}
+			ok := ex.model != nil
+			if ok {
+				ex.model.Miss = false
+				v = smt.Eval(p.off, ex.model, map[int]uint64{})
+				ok = !ex.model.Miss
+			}
+			if !ok {
+				ex.auxRecord(AuxRec{Site: ex.instrs, GaveUp: true})
+				return p
+			}
+			ex.auxRecord(AuxRec{Site: ex.instrs, V: v})
+		}
+		k := ex.c.Const(64, v)
+		if ex.branch(ex.c.Eq(p.off, k)) {
+			return Ptr{obj: p.obj, off: k}
+		}
+	}
+	return p
+}
+
 // load reads a value of type t through p.
 func (ex *Exec) load(p Ptr, t types.Type) Value {
 	ex.derefCheck(p)
+	p = ex.concretizeOff(p)
 	o := p.obj
 	size := sizeof(t)
 	if size == 0 {
@@ -784,6 +845,7 @@ func (ex *Exec) load(p Ptr, t types.Type) Value {
 // store writes v of type t through p.
 func (ex *Exec) store(p Ptr, t types.Type, v Value) {
 	ex.derefCheck(p)
+	p = ex.concretizeOff(p)
 	o := p.obj
 	size := sizeof(t)
 	if size == 0 {
